@@ -225,6 +225,13 @@ func c082(c *an.Ctx, p *an.Prog, x *fsx, prop string) {
 			var G *an.Term
 			if dc, _ := args[1].CallOf(); dc != nil && dc.Aux == "(*os.File).Name" {
 				G = dc.Args[0]
+			} else {
+				// the destination is the path string itself: the handle opened at exactly that path
+				for _, e := range s.Events {
+					if e.Kind == "call" && (e.Callee == "os.OpenFile" || e.Callee == "os.Open") && len(e.Args) > 0 && e.Args[0].K == args[1].K {
+						G = extractOf(e.Res, 0)
+					}
+				}
 			}
 			evs := x.fsEvents(s, s.Events)
 			syncIdx, lastWrite, firstWrite, auxIdx := -1, -1, -1, -1
